@@ -285,6 +285,16 @@ func genC03() error {
 		same.WriteString("\t\treturn r\n")
 		vary.WriteString("\t\treturn\n")
 	}
+	// member tables of the attribute enums (used by the C18 attribute carriers)
+	for _, tb := range []string{"FuncAttr", "ParamAttr", "ReturnAttr", "UnwindTableKind", "Linkage", "Visibility", "DLLStorageClass", "TLSModel", "UnnamedAddr", "Preemption", "CallingConv", "SelectionKind"} {
+		if tn, ok := enumPkg.Scope().Lookup(tb).(*types.TypeName); ok {
+			if n, ok := tn.Type().(*types.Named); ok {
+				if _, have := enumTables[tb]; !have {
+					enumTables[tb] = members(n)
+				}
+			}
+		}
+	}
 	var sb strings.Builder
 	sb.WriteString("//go:build verif\n\n// Code generated by vcheck gen (L2) from go/types of /repo; DO NOT EDIT.\n\npackage asm\n\nimport (\n\t\"github.com/llir/llvm/ir\"\n\t\"github.com/llir/llvm/ir/enum\"\n\t\"github.com/llir/llvm/ir/types\"\n\t\"github.com/llir/llvm/ir/value\"\n)\n\n")
 	var tbs []string
